@@ -635,3 +635,27 @@ impl<M> Caged<M> {
         p >= base && p + size <= end
     }
 }
+
+// ---------------------------------------------------------------------------------------
+// alignment of handed-out references
+// ---------------------------------------------------------------------------------------
+
+thread_local! {
+    static MISALIGNED: Cell<u32> = const { Cell::new(0) };
+}
+
+/// Address of a reference the library handed out; a reference that is not aligned for its type
+/// is recorded (engines report it with the next standing check).
+#[inline]
+pub fn addr_of<T>(r: &T) -> usize {
+    let p = r as *const T as usize;
+    if p % std::mem::align_of::<T>() != 0 {
+        MISALIGNED.with(|c| c.set(c.get() + 1));
+    }
+    p
+}
+
+/// Number of misaligned references seen since the last call.
+pub fn take_misaligned() -> u32 {
+    MISALIGNED.with(|c| c.replace(0))
+}
